@@ -18,6 +18,8 @@ FAMILIES = {
         {'family': 'core', 'knobs': {'frag': 64, 'gating': True, 'min_steps': 20, 'max_steps': 60, 'sources': ['scripted'],
                                      'kinds': ['stream', 'channel', 'channel', 'rr']}, 'quick': 300, 'thorough': 5000},
         {'family': 'core', 'knobs': {'frag': 100, 'mode': 'msg'}, 'quick': 100, 'thorough': 2000, 'first': 100000},
+        # an interaction is ended while a fragmented frame of it is half-written (the CANCEL / ERROR is handled with the sender blocked)
+        {'family': 'midframe', 'knobs': {}, 'quick': 200, 'thorough': 3000, 'first': 950000},
         {'family': 'core', 'knobs': {}, 'quick': 100, 'thorough': 2000, 'first': 200000},
         {'family': 'tlccover2', 'knobs': {}, 'quick': 0, 'thorough': 0, 'first': 800000},
     ],
@@ -69,6 +71,8 @@ FAMILIES = {
         # the loss follows a REQUEST / a terminal frame in the same read (handler just invoked, tasks created but not yet run)
         {'family': 'cut', 'knobs': {'p_request_race': 0.6, 'p_terminal_race': 1.0, 'faults': ['eof', 'eof', 'error']}, 'quick': 300,
          'thorough': 4000, 'first': 200000},
+        # the loss / close() finds the sender inside the write of a (fragmented) frame
+        {'family': 'cut', 'knobs': {'p_midwrite': 1.0}, 'quick': 200, 'thorough': 3000, 'first': 900000},
         # ... and with the interactions driven through the Rx / ReactiveX front ends
         {'family': 'adapters_cut', 'knobs': {}, 'quick': 250, 'thorough': 4000, 'first': 400000},
         # the connection ends while requests are waiting for a lease
@@ -105,6 +109,11 @@ FAMILIES = {
          'quick': 300, 'thorough': 4000, 'first': 200000},
         # the next transport cannot be connected (server down): the application retries from on_connection_error
         {'family': 'reconnect', 'knobs': {'p_connect_fail': 1.0, 'p_stale_fragments': 0.0}, 'quick': 200, 'thorough': 3000, 'first': 300000},
+        # a lease-honouring client reconnects while requests are waiting for a lease: "requests issued afterwards are served" once the new
+        # connection's LEASE allows them (whatever the previous connection left behind)
+        {'family': 'lease', 'knobs': {'p_reconnect': 0.2}, 'quick': 250, 'thorough': 4000, 'first': 500000,
+         'also': ('C14.released_when_lease_allows', 'C14.fifo_release', 'C14.no_request_before_first_lease', 'C01.all_delivered_at_quiescence',
+                  'C01.request_delivered_once_to_matching_handler')},
     ],
     'C20': [
         {'family': 'adapters', 'knobs': {'version': 'reactivex'}, 'quick': 300, 'thorough': 5000},
@@ -117,6 +126,11 @@ FAMILIES = {
         {'family': 'tlccover', 'knobs': {}, 'quick': 0, 'thorough': 0, 'first': 700000},
         {'family': 'tlccover2', 'knobs': {}, 'quick': 0, 'thorough': 0, 'first': 800000},
         {'family': 'core', 'knobs': {'p_cancel': 0.15, 'p_error': 0.15}, 'quick': 400, 'thorough': 6000},
+        # cancels (and errors) racing fragmented elements that are partly written / partly in flight: whatever was left half-way - in the
+        # sender's queue or in the peer's reassembly cache - must be gone at quiescence
+        {'family': 'core', 'knobs': {'frag': 64, 'gating': True, 'p_cancel': 0.4, 'p_error': 0.1, 'kinds': ['stream', 'stream', 'channel', 'rr'],
+                                     'sources': ['scripted'], 'min_steps': 20, 'max_steps': 50}, 'quick': 250, 'thorough': 4000, 'first': 900000},
+        {'family': 'midframe', 'knobs': {}, 'quick': 250, 'thorough': 4000, 'first': 950000},
         # "... and the stream's id can be used again": ids wrap around and are used again within one connection
         {'family': 'idwrap', 'knobs': {}, 'quick': 200, 'thorough': 3000, 'first': 300000},
         # interactions that end with their connection, between two fragments of an inbound frame; the id is used again after the reconnect
